@@ -12,12 +12,14 @@ import os
 import random
 import time
 from fractions import Fraction
+from pathlib import Path
 
 from .. import c13_gen as G
 from ..common import (Report, cbool, clist, cobs, cstr, decide, load_findings, run_case_shards, run_impl,
                       standard_proof_part, write_replay)
 
 PROP = "C13"
+CORPUS_DIR = Path(__file__).resolve().parents[2] / "corpus" / PROP
 STRIP = set("()-? \t\n\r\x0b\x0c")
 
 
@@ -334,6 +336,12 @@ def build_inputs(rng, tier):
     for entry, d, conds, assum in CORPUS:
         inputs.append({"job": {"op": "c13.run", "entry": entry, "digits": d, "conds": conds, "assumptions": assum},
                        "points": [], "kind": "corpus", "nontrivial": True, "fluents": None})
+    # the minimised / recorded cases of corpus/C13/*.json (alarms of earlier runs: false alarms repaired in the checker's hint
+    # generator, and the witnesses of repaired defects), with the rational points they were judged at
+    for f in sorted(CORPUS_DIR.glob("*.json")):
+        src = json.load(open(f))["input"]
+        inputs.append({"job": src["job"], "points": src.get("points", []), "kind": "corpus-file:" + f.stem,
+                       "nontrivial": True, "fluents": None})
     # symbol collisions (finding D21): a few per run
     for _ in range(4 if tier == "quick" else 20):
         pair = rng.choice(G.COLLIDING)
@@ -426,8 +434,11 @@ def run(args):
         for lit, desc, nontrivial in glue_lits({"glue": [replay_glue]}):
             cases.append({"lit": lit, "input": desc, "nontrivial": nontrivial, "witness_of": None, "what": "glue"})
     t0 = time.time()
-    verdicts, info = run_case_shards(PROP, "Corr.C13", [c["lit"] for c in cases], shard_size=40,
-                                     header_extra="From Coq Require Import QArith.\nFrom Verif Require Import Model.SymbolicGlue Spec.Poly.\n")
+    # run2 prints two characters per case: the verdict and the part of the checker that validated the outputs (evidence)
+    both, info = run_case_shards(PROP, "Corr.C13", [c["lit"] for c in cases], shard_size=40, run_fn="run2",
+                                 units=[2] * len(cases),
+                                 header_extra="From Coq Require Import QArith.\nFrom Verif Require Import Model.SymbolicGlue Spec.Poly.\n")
+    verdicts, paths = both[0::2], both[1::2]
     rep.coverage["timing_s"] = {"implementation": round(t_impl, 1), "coq_shards": round(time.time() - t0, 1)}
     if os.environ.get("C13_DEBUG"):
         json.dump([{"v": v, "what": c["what"], "input": c["input"]} for c, v in zip(cases, verdicts) if v != "."],
@@ -446,6 +457,25 @@ def run(args):
     cov["programs"] = len(e2e)
     cov["disagreements_checked"] = sum(1 for c, v in e2e if v != ".")
     cov["glue_cases"] = {"convert": n_glue, "transform": n_trans}
+    # which part of the proved checker validated the outputs of each end-to-end case (Corr.C13.ev_path)
+    names = {"p": "coefficientwise (polynomial normal forms)", "e": "structural rounding of the output itself (eround, no hint)",
+             "h": "structural rounding of a hint (eround, hint verified exactly equivalent)",
+             "i": "nothing printed: every condition an identity or implied by the kept equalities", "-": "not validated", "?": "shard failed"}
+    by_path, by_entry = {}, {}
+    for (c, v), pth in zip(zip(cases, verdicts), paths):
+        if c["what"] != "e2e":
+            continue
+        by_path[names.get(pth, pth)] = by_path.get(names.get(pth, pth), 0) + 1
+        ent = c["input"]["job"]["entry"]
+        by_entry.setdefault(ent, {})
+        by_entry[ent][pth] = by_entry[ent].get(pth, 0) + 1
+    cov["validated_by"] = by_path
+    cov["validated_by_entry"] = {k: dict(sorted(v.items())) for k, v in sorted(by_entry.items())}
+    cov["validated_by_digits"] = {}
+    for (c, v), pth in zip(zip(cases, verdicts), paths):
+        if c["what"] == "e2e":
+            dd = cov["validated_by_digits"].setdefault(str(c["input"]["job"]["digits"]), {})
+            dd[pth] = dd.get(pth, 0) + 1
     cov["fixtures"] = kinds.pop("fixture-files/parsed-domains/sets", None)
     cov["input_distribution"] = {"%s/%s" % k: v for k, v in sorted(kinds.items())}
     cov["input_distribution"]["fixture"] = sum(1 for i in inputs if i["kind"].startswith("fixture:"))
